@@ -39,8 +39,9 @@ KNOB_DEFAULTS = {
     "path_flavour": "str",    # str | Path | PathLike
     "fault": None,            # None | "eio" | "vanish" | "interrupt"
     "reparse": False,         # parse() a second time and ask everything again
+    "solo_first": False,      # earlier in the same process the caller read one of the files on its own
 }
-SIM_DIMENSIONS = ("mode", "n_files", "end_per_file", "bom", "crlf", "no_final_newline", "extra_files", "chunk", "path_flavour", "fault", "final_end", "reparse")
+SIM_DIMENSIONS = ("mode", "n_files", "end_per_file", "bom", "crlf", "no_final_newline", "extra_files", "chunk", "path_flavour", "fault", "final_end", "reparse", "solo_first")
 
 
 def draw_knobs(rng: random.Random, faults: bool = False, raw: bool = False) -> dict:
@@ -58,6 +59,7 @@ def draw_knobs(rng: random.Random, faults: bool = False, raw: bool = False) -> d
     k["chunk"] = rng.choice([0, 0, 1, 2, 3, 7, 16, 64])
     k["path_flavour"] = rng.choice(["str", "Path", "PathLike"])
     k["reparse"] = rng.random() < 0.15
+    k["solo_first"] = rng.random() < 0.25
     if raw:
         k["wrap_params"] = k["comma_params"] = k["spacing"] = False
     if faults:
@@ -211,8 +213,12 @@ def make_delivery(doc: dict, dseed: int, knobs: dict) -> dict:
     elif knobs["fault"] == "interrupt":
         n_lines = sum(f["content"].count("\n") + 1 for f in files)
         fault = {"kind": "interrupt", "k": rng.randint(1, max(2, 7 * n_lines + 20))}
+    solo = None
+    if knobs.get("solo_first") and fault is None and len(files) > 1:
+        # a file that is not the last one of the main delivery, so that it changes position between the two reads
+        solo = rng.randrange(len(files) - 1)
     return {"mode": "files", "files": files, "chunk": knobs["chunk"], "path_flavour": knobs["path_flavour"], "fault": fault,
-            "reparse": bool(knobs.get("reparse"))}
+            "reparse": bool(knobs.get("reparse")), "solo_first": solo}
 
 
 def abstract(knobs: dict) -> tuple:
